@@ -188,8 +188,8 @@ def main(pid, argv):
     for (line, ops), il, ml in zip(cs, impl, model):
         res = il.split(" ")
         bad = None
-        if il.startswith("CRASH"):
-            bad = "harness crashed: " + il[:200]
+        if il.startswith(("CRASH", "HANG")):
+            bad = "the library crashed or hung: " + il[:200]
         elif "panic" in res:
             bad = "an address string made the library panic"
         elif "noreturn" in res or "stuck" in res:
